@@ -1,5 +1,6 @@
 import LdarModel.Lemmas.Crew
 import LdarModel.Lemmas.CrewGeneric
+import LdarModel.Generated.CrewCost
 /-
 C08 — crews never exceed their workday and never work in disallowed weather.
 
@@ -262,6 +263,20 @@ theorem day_unit_free (k : Int) (hk : 0 < k) (p : MethodP) (budget : Int) (n : N
     deployDay p (k * budget) n (reqs.map (scaleReq k)) = scaleDay k (deployDay p budget n reqs) ∧
     ∀ R S T P st w, surveyStep (k * R) (k * S) (k * T) (k * P) st w = scaleOut k (surveyStep R S T P st w) :=
   ⟨deployDay_scale k hk p budget n reqs, fun R S T P st w => surveyStep_scale k hk R S T P st w⟩
+
+/-! ### table obligations (regenerated from /repo on every run: `Generated/CrewCost.lean`) -/
+
+/-- the model has no state that survives from one `deploy_crews` call, method or day to the next
+beyond what it is handed; the code it models must not have any either: no function of the modelled
+modules mutates a class-level / module-level / imported constant container, none is cached -/
+theorem crew_no_cross_case_state :
+    Generated.CrewCost.sharedContainerMutations = [] ∧ Generated.CrewCost.cachedFunctions = [] ∧
+    Generated.CrewCost.moduleLevelContainers = [] := by decide
+
+/-- what is handed to a worker process arrives as it was sent: for every class with a pickling hook
+the argument tuple of `__reduce__` lists the attributes in the order `_reconstruct` stores them -/
+theorem pickle_roundtrip_order :
+    ∀ e ∈ Generated.CrewCost.pickleOrder, e.2.2.1 = e.2.2.2 := by decide
 
 /-! ### non-vacuity -/
 
